@@ -461,7 +461,8 @@ def stream_reorder(ctx, rng, N):
         # semantic audit: constraints by definition <=> conic data with the first n columns as x
         sers = [clm.ser_con(c) for c in cons]
         ids = [int(i) for i in x.scalar_variable_ids]
-        for _ in range(8):
+        npts = 8 if common.canon_json(got) == common.canon_json(want) else 60       # failing-input search when the data differ
+        for _ in range(npts):
             y = [rng.randint(-14, 14) / 4.0 for _ in range(n)]
             sigma = {i: v for i, v in zip(ids, y)}
             inside = clm.combine([clm.con_holds(s, sigma, margin=MARGIN) for s in sers])
@@ -479,9 +480,11 @@ def stream_reorder(ctx, rng, N):
                 break
         # support function on sampled members and closed form in box directions
         boxes = {d[1]: (d[2], d[3]) for d in desc if d[0] == 'box'}
-        if len(desc) == len(boxes) and len(boxes) == n and not poly:
-            yv = np.array([float(rng.choice([-2, -1, 0, 1, 3])) for _ in range(n)])
-            want_s = float(sum(v * (boxes[j][1] if v > 0 else boxes[j][0]) for j, v in enumerate(yv)))
+        if len(desc) == len(boxes) and not poly:
+            # directions vanish on the components that occur in no constraint (there the support function is +infinity)
+            yv = np.array([float(rng.choice([-2, -1, 0, 1, 3])) if j in boxes else 0.0 for j in range(n)])
+            want_s = float(sum(v * (boxes[j][1] if v > 0 else boxes[j][0]) for j, v in enumerate(yv) if j in boxes))
+            ctx.count('audit:suppfunc:absent=%d' % (n - len(boxes)))
             try:
                 got_s = float(X.suppfunc(yv))
             except Exception as e:  # noqa: BLE001
